@@ -20,21 +20,21 @@ import (
 // ---------------------------------------------------------------------------------- Env
 
 type Env struct {
-	id      string
-	cases   string
-	out     string
-	n       int
-	seed    int64
-	opts    map[string]string
-	rng     *rand.Rand
-	mu      sync.Mutex
-	w       *bufio.Writer
-	f       *os.File
-	checked int64
-	failed  int64
-	classes map[string]int
-	samples int
-	skipped int64
+	id        string
+	cases     string
+	out       string
+	n         int
+	seed      int64
+	opts      map[string]string
+	rng       *rand.Rand
+	mu        sync.Mutex
+	w         *bufio.Writer
+	f         *os.File
+	checked   int64
+	failed    int64
+	classes   map[string]int
+	samples   int
+	skipped   int64
 	noSummary bool
 }
 
